@@ -38,7 +38,8 @@ CONSTANTS Deviations,     \* named departures of the code from the design that a
           Pools,          \* "min" / "tiny" / "small": a few tokens per argument (exhaustive runs); "full": all of them; "doc": documented uses only; "refs": documented uses plus spare names
           MaxCalls, MinCalls, MaxDepth, MaxMisplaced,
           MaxTop,         \* at most this many top-level calls (the rest of the budget goes into nesting)
-          MinKids         \* a func() does not return before it made this many calls (while the budget lasts)
+          MinKids,        \* a func() does not return before it made this many calls (while the budget lasts)
+          Once            \* functions the generator calls at most once per program (the spine of a focused enumeration)
 
 E(doc, opens, ns, ts, vs) == [doc |-> doc, opens |-> opens, ns |-> ns, ts |-> ts, vs |-> vs]
 
@@ -791,8 +792,9 @@ NoOutcome == [kind |-> "none", nErrs |-> 0, allNamed |-> TRUE]
 NoCall == [f |-> "?", n |-> "?", t |-> "?", c |-> "?"]
 CurCtx == IF stack = <<>> THEN "Top" ELSE stack[Len(stack)].ctx
 CurNode == IF stack = <<>> THEN 0 ELSE stack[Len(stack)].node
-WellFns(ctx) == {f \in Fns : ctx \in FT[f].doc}
-MisFns(ctx) == Fns \ WellFns(ctx)
+Usable == {f \in Fns : f \in Once => \A i \in Idx(nodes) : nodes[i].f # f}
+WellFns(ctx) == {f \in Usable : ctx \in FT[f].doc}
+MisFns(ctx) == {f \in Usable : ctx \notin FT[f].doc}
 
 Init == /\ nodes = <<>> /\ stack = <<>> /\ pc = "mode" /\ mode = "-" /\ cur = NoCall /\ nmis = 0
         /\ outcome = NoOutcome /\ later = "-"
